@@ -37,6 +37,13 @@ the XML of the shape serialised and re-parsed with *bare* lxml (no python-pptx e
     left/top/width/height (API, groups on the path) equal the bounding box of the group's member
     shapes' observed (x, y, cx, cy); sub-groups count with their own off/ext, which are themselves
     checked, hence "recursively". Empty groups are skipped.
+    DEGENERATE members: the last-operation alphabet additionally has, for kinds {autoshape, textbox,
+    connector, subgroup-new}, every grid position x sizes {(3,0) horizontal rule, (0,3) vertical rule,
+    (0,0) point} (autoshape/textbox with width or height 0; connector from (x+w,y) to (x,y+h); a sub-group
+    whose single member is degenerate) = 108 more operations per group (270 in all); prefix sets with a
+    horizontal rule at (2,2) as an earlier member: quick (dg), thorough also (add, dg) and (dg, add) over
+    {autoshape, subgroup-new} x 3 geometries. The bounding-box model treats a degenerate member like any
+    other box; only a sub-group without members is skipped.
     RESIZE (prefix-only operation): `g.left, g.top, g.width, g.height = v` through the public GroupShape
     setters, g = any non-empty group, v in {(50,70,900,700), (150,250,50,30)}. It produces the states in
     which a:off/a:ext differ from a:chOff/a:chExt (as in files where PowerPoint scaled a group). Model:
@@ -80,7 +87,8 @@ Signatures:  C17|connector|<rule>|op=<coord>|from=<lt|eq|gt>,to=<lt|eq|gt>,flip=
              group at which the lowest wrong group sits: 0 = the group that received the member; this
              makes one signature per defect rather than one per nesting depth; `off-path` for a group
              that is not an ancestor); suffix `|after-resize` when a group on the path had been
-             moved/resized through the setters          C17|group-child-extents|... (only chOff/chExt wrong)
+             moved/resized through the setters, `|degenerate-member` when the added member has zero
+             width and/or height          C17|group-child-extents|... (only chOff/chExt wrong)
              C17|freeform|<rule>|<class>[|builder-reuse]   (suffix: second shape of a reused builder)
 """
 
@@ -353,6 +361,26 @@ U = 100  # EMU per grid unit
 KINDS = ("autoshape", "textbox", "picture", "connector", "chart", "ole", "freeform",
          "subgroup-new", "subgroup-of")
 GEOMS_FULL = tuple((px, py, s) for px in range(3) for py in range(3) for s in (1, 3))
+# degenerate members: size 0 in exactly one axis (horizontal / vertical rule) or in both (a point); the
+# size slot of an operation is then a (w, h) pair instead of a single number. A degenerate member is a box
+# like any other for the bounding-box model (only a sub-group WITHOUT members is unspecified).
+SIZES_DEGEN = ((3, 0), (0, 3), (0, 0))
+GEOMS_DEGEN = tuple((px, py, wh) for px in range(3) for py in range(3) for wh in SIZES_DEGEN)
+KINDS_DEGEN = ("autoshape", "textbox", "connector", "subgroup-new")
+GEOMS_DEGEN_PREFIX = ((2, 2, (3, 0)),)
+KINDS_DEGEN_PREFIX = ("autoshape", "connector", "subgroup-new")
+LEAF_OPS_PER_GROUP = len(KINDS) * len(GEOMS_FULL) + len(KINDS_DEGEN) * len(GEOMS_DEGEN)
+
+
+def _wh(s):
+    """(width, height) in EMU of a size slot: a number (square) or a (w, h) pair."""
+    if isinstance(s, (tuple, list)):
+        return s[0] * U, s[1] * U
+    return s * U, s * U
+
+
+def _degenerate(s):
+    return isinstance(s, (tuple, list)) and (s[0] == 0 or s[1] == 0)
 GEOMS_PREFIX = ((1, 1, 1), (0, 0, 3), (2, 2, 1))
 KINDS_PREFIX = ("autoshape", "subgroup-new", "subgroup-of")
 KINDS_PREFIX4 = ("autoshape", "subgroup-new")
@@ -420,7 +448,7 @@ def _m_apply(model, op):
         return tuple(path)
     for k in range(len(path) + 1):
         _m_group(model, path[:k]).pop("own", None)
-    box = (px * U, py * U, s * U, s * U)
+    box = (px * U, py * U) + _wh(s)
     if kind.startswith("subgroup"):
         g["children"].append({"k": kind, "children": [{"k": "autoshape", "box": box}]})
         return tuple(path) + (len(g["children"]) - 1,)
@@ -484,29 +512,31 @@ def _g_apply(slide, top, op):
     if kind == "resize":
         g.left, g.top, g.width, g.height = RESIZES[px]
         return
-    x, y, w = px * U, py * U, s * U
+    x, y = px * U, py * U
+    w, h = _wh(s)
     sh = g.shapes
     if kind == "autoshape":
-        sh.add_shape(MSO_SHAPE.RECTANGLE, x, y, w, w)
+        sh.add_shape(MSO_SHAPE.RECTANGLE, x, y, w, h)
     elif kind == "textbox":
-        sh.add_textbox(x, y, w, w)
+        sh.add_textbox(x, y, w, h)
     elif kind == "picture":
-        sh.add_picture(_img(), x, y, w, w)
+        sh.add_picture(_img(), x, y, w, h)
     elif kind == "connector":
-        sh.add_connector(MSO_CONNECTOR.STRAIGHT, x + w, y, x, y + w)
+        # top-right -> bottom-left (flipH); h == 0: a horizontal rule, w == 0: a vertical rule, both: a point
+        sh.add_connector(MSO_CONNECTOR.STRAIGHT, x + w, y, x, y + h)
     elif kind == "chart":
-        sh.add_chart(XL_CHART_TYPE.PIE, x, y, w, w, _chart_data())
+        sh.add_chart(XL_CHART_TYPE.PIE, x, y, w, h, _chart_data())
     elif kind == "ole":
-        sh.add_ole_object(io.BytesIO(b"c17"), "C17.Object", x, y, w, w, icon_file=_img())
+        sh.add_ole_object(io.BytesIO(b"c17"), "C17.Object", x, y, w, h, icon_file=_img())
     elif kind == "freeform":
         b = sh.build_freeform(0, 0, 1.0)
-        b.add_line_segments([(w, 0), (w, w)], close=True)
+        b.add_line_segments([(w, 0), (w, h)], close=True)
         b.convert_to_shape(x, y)
     elif kind == "subgroup-new":
         sub = sh.add_group_shape()
-        sub.shapes.add_shape(MSO_SHAPE.RECTANGLE, x, y, w, w)
+        sub.shapes.add_shape(MSO_SHAPE.RECTANGLE, x, y, w, h)
     elif kind == "subgroup-of":
-        loose = slide.shapes.add_shape(MSO_SHAPE.RECTANGLE, x, y, w, w)
+        loose = slide.shapes.add_shape(MSO_SHAPE.RECTANGLE, x, y, w, h)
         sh.add_group_shape([loose])
     else:
         raise ValueError(kind)
@@ -571,7 +601,7 @@ def _g_check(top, bare, model, op, modified, prev_bad=frozenset(), after_resize=
     out = []
     wrong = []   # (d, signature, message) of groups whose extents differ from their members' bbox
     bad_now = set()
-    sfx = "|after-resize" if after_resize else ""
+    sfx = ("|degenerate-member" if _degenerate(op[3]) else "") + ("|after-resize" if after_resize else "")
 
     def depth_of(path):
         if tuple(modified[:len(path)]) == tuple(path):
@@ -652,11 +682,15 @@ def _g_check(top, bare, model, op, modified, prev_bad=frozenset(), after_resize=
     return out, bad_now
 
 
+def _js(s):
+    return list(s) if isinstance(s, tuple) else s
+
+
 def _g_step(part, slide, top, model, op, hist, prev_bad):
     """Apply op to implementation and model, check, count. Returns (bare tree or None, path of the
     group that received the member, paths of groups now inconsistent)."""
     kind = op[0]
-    replay = {"sys": "group", "ops": [[o[0], o[1], o[2], o[3], list(o[4])] for o in hist]}
+    replay = {"sys": "group", "ops": [[o[0], o[1], o[2], _js(o[3]), list(o[4])] for o in hist]}
     if kind == "resize":
         modified = _m_apply(model, op)
         part.count("transitions")
@@ -700,6 +734,11 @@ def _g_step(part, slide, top, model, op, hist, prev_bad):
     changed = any(_m_bbox(_m_group(model, p)) != b for p, b in before.items())
     if changed:
         part.count("nontrivial_count")
+    if _degenerate(op[3]):
+        part.count("group_degenerate_additions")
+        if changed:
+            # a member without area that lies outside the box of the other members: it must enlarge the group
+            part.count("group_degenerate_additions_changing_bbox")
     inside = _m_child_bbox(_m_group(model, path)) == child_before
     if after_resize:
         part.count("group_additions_after_resize")
@@ -714,6 +753,15 @@ def _g_step(part, slide, top, model, op, hist, prev_bad):
     for sig, msg in reports:
         part.violation(sig, msg, replay)
     return bare, modified, bad_now
+
+
+def _g_leaf_ops(model):
+    """The last-operation alphabet: every kind x every regular geometry, plus the degenerate geometries for
+    the kinds in KINDS_DEGEN, on every group."""
+    for op in _g_ops(model, KINDS, GEOMS_FULL):
+        yield op
+    for op in _g_ops(model, KINDS_DEGEN, GEOMS_DEGEN):
+        yield op
 
 
 def _g_ops(model, kinds, geoms):
@@ -751,7 +799,7 @@ def _g_expected_leaf_ops(prefix_sets):
     n = 0
     for spec in prefix_sets:
         for _hist, model in _g_prefixes(spec):
-            n += len(_m_groups(model)) * len(KINDS) * len(GEOMS_FULL)
+            n += len(_m_groups(model)) * LEAF_OPS_PER_GROUP
     return n
 
 
@@ -763,11 +811,12 @@ def _g_prefix_sets(thorough):
     p3 = ("add", KINDS_PREFIX, GEOMS_PREFIX)
     p4 = ("add", KINDS_PREFIX4, GEOMS_PREFIX)
     rs = ("resize",)
+    dg = ("add", KINDS_DEGEN_PREFIX, GEOMS_DEGEN_PREFIX)   # a horizontal rule already in the group
     sets = [(), (full,)]
     if thorough:
-        sets += [(k3, k3), (p4, p4, p4), (full, rs), (p4, p4, rs), (p4, rs, p4)]
+        sets += [(k3, k3), (p4, p4, p4), (full, rs), (p4, p4, rs), (p4, rs, p4), (dg,), (p4, dg), (dg, p4)]
     else:
-        sets += [(p3, p3), (k3, rs)]
+        sets += [(p3, p3), (k3, rs), (dg,)]
     return sets
 
 
@@ -810,7 +859,7 @@ def _g_work(part, chunk):
         snap = copy.deepcopy(top.element)
         nchild = max(len(_m_group(model, p)["children"]) for p in _m_groups(model))
         part.add("group_max_nesting", len(max(_m_groups(model), key=len)) + 1)
-        for op in list(_g_ops(model, KINDS, GEOMS_FULL)):
+        for op in list(_g_leaf_ops(model)):
             m2 = copy.deepcopy(model)
             part.count("group_leaf_ops")
             bare, mod, _bad = _g_step(part, slide, top, m2, op, done + [op], bad)
@@ -825,8 +874,8 @@ def _g_work(part, chunk):
             _g_clean_slide(slide, fresh)
             top = slide.shapes[0]
         if len(hist) == 2 and hist[0][:4] == ("subgroup-new", 1, 1, 1) and hist[1] == ("subgroup-of", 0, 0, 3, (0,)):
-            part.sample({"sys": "group", "prefix": [[o[0], o[1], o[2], o[3], list(o[4])] for o in hist],
-                         "expanded_by": "9 kinds x 18 geometries x %d groups" % len(_m_groups(model)),
+            part.sample({"sys": "group", "prefix": [[o[0], o[1], o[2], _js(o[3]), list(o[4])] for o in hist],
+                         "expanded_by": "%d leaf operations x %d groups" % (LEAF_OPS_PER_GROUP, len(_m_groups(model))),
                          "max_members": nchild})
 
 
@@ -836,7 +885,7 @@ def _g_replay(data):
     model = _m_new()
     prev_bad = frozenset()
     for o in data["ops"]:
-        op = (o[0], o[1], o[2], o[3], tuple(o[4]))
+        op = (o[0], o[1], o[2], tuple(o[3]) if isinstance(o[3], list) else o[3], tuple(o[4]))
         path = op[4]
         after_resize = any("own" in _m_group(model, path[:k]) for k in range(len(path) + 1))
         modified = _m_apply(model, op)
@@ -1281,7 +1330,10 @@ def run(ctx):
         "traces_validated": c.get("traces_validated_against_impl", 0) - before.get("traces_validated_against_impl", 0),
         "prefix_histories": len(hists), "leaf_operations": leaf, "prefix_replay_operations": exp_prefix,
         "max_history_length": max(len(sp) for sp in sets) + 1, "max_nesting_depth": max(nest) if nest else 0,
-        "alphabet_full": "%d kinds x %d geometries per group" % (len(KINDS), len(GEOMS_FULL)),
+        "alphabet_full": "%d kinds x %d geometries + %d kinds x %d degenerate geometries = %d per group" % (
+            len(KINDS), len(GEOMS_FULL), len(KINDS_DEGEN), len(GEOMS_DEGEN), LEAF_OPS_PER_GROUP),
+        "degenerate_additions": c.get("group_degenerate_additions", 0),
+        "degenerate_additions_changing_a_bbox": c.get("group_degenerate_additions_changing_bbox", 0),
         "prefix_sets": [_g_spec_text(sp) for sp in sets],
         "resize_values(left,top,width,height)": [list(r) for r in RESIZES],
         "resize_operations": c.get("group_resize_ops", 0),
@@ -1294,6 +1346,8 @@ def run(ctx):
     if clean or all("raised" not in v[0] for v in ctx.violations):
         if (max(nest) if nest else 0) != want_nest:
             raise HarnessError("group nesting depth reached %r != %d" % (max(nest) if nest else 0, want_nest))
+    if clean and not c.get("group_degenerate_additions_changing_bbox", 0):
+        raise HarnessError("no degenerate member addition changed a bounding box")
     # non-vacuity of the resize operation: the setters must have produced scaled groups, and additions
     # that leave the member bounding box unchanged must have been made into them
     if clean and (c.get("group_resize_not_as_modelled", 0) or not c.get("group_scaled_states_reached", 0)
